@@ -13,6 +13,7 @@ Case lines sent to bin/modelrun_c09 (see coq/C09/driver.ml):
        U<slot> (uncache)  E<slot> (edit a header field)  D<slot> (set_data_dtype f8<->f4)
        S<slot><path> (nib.save)  B<slot> (to_bytes / from_bytes)  T<slot><path> (img.to_filename)
        C<slot><slot2> (slot2 := type(img).from_image(img): two image objects, one dataobj)  M<slot> (edit np.asanyarray(dataobj))
+       A<slot><slot2><a|f|v> (slot2 := a NEW image of the same class around np.asanyarray(dataobj) / get_fdata() / np.asarray(dataobj))
        I<slot> (set_data_dtype(int16))  W<slot><path> (save as uint8)  X<slot> (save onto a link to /dev/full)
   result tokens: done | val:<v|G> | saved:<path>:<v|G>:<dtype>:<affine> | bytes:<v|G>:<dtype>:<affine>
                  | ref:<refusal> | crash | dead      (G = garbage: not compared)
@@ -38,10 +39,13 @@ BIG = (16, 16, 8)        # 2048 voxels: 16384 bytes as float64, 8192 as float32 
 VECS = [(4096, 1, 1), (1, 4096, 1), (1, 1, 1, 4096)]
 EXT = {'N': '.nii', 'P': '.img', 'M': '.mgh', 'A': '.img'}
 
+S_C09D = ('an image built around np.asarray(img.dataobj) (a base-class VIEW of the memory map; also memmap.view(np.ndarray)) and '
+          'saved onto the mapped file: unmap_if_target only recognises np.memmap instances with a filename, the target is '
+          'truncated under the live map - SIGBUS when the data exceed a page, zeros written otherwise')
 S_C09B = ('get_fdata() of an image whose cached array is the memory map of a plain file (float64 NIfTI) that a later '
           'save of ANOTHER image object has overwritten with a shorter file: SIGBUS when the data exceed a page (silently '
           'different values otherwise); inherent to mmap (the same image saving onto its own file drops its caches '
-          'since 29b7b6ce)')
+          'since 29b7b6ce); likewise an image whose OWN array is such a map (built around np.asanyarray(dataobj) / get_fdata())')
 # --------------------------------------------------------------------------- platform / source facts
 FACTS = {}
 
@@ -205,7 +209,8 @@ ARRAY_SLOT_SPM = dict(v=2, fmt='A', dt='f8', aff=3)
 
 ALPHA = ['L00T', 'L00F', 'L01T', 'L10T', 'L11T', 'F0', 'F1', 'U0', 'E0', 'D0', 'D1', 'S00', 'S01', 'S10', 'S11', 'B0']
 ALL_OPS = [f'L{s}{p}{m}' for s in '01' for p in '012' for m in 'TFR'] + [f'{k}{s}' for k in 'FUEDBXI' for s in '01'] + \
-    [f'S{s}{p}' for s in '01' for p in '012'] + [f'T{s}{p}' for s in '01' for p in '012'] + ['C01', 'C10', 'M0', 'M1']
+    [f'S{s}{p}' for s in '01' for p in '012'] + [f'T{s}{p}' for s in '01' for p in '012'] + ['C01', 'C10', 'M0', 'M1'] + \
+    ['A01a', 'A10a', 'A01f', 'A10f', 'A01v']
 
 
 PRESET = (0.5, 0.5)      # slope, intercept of the 'i2s' sources (raw 2V-1 decodes to V)
@@ -450,6 +455,26 @@ def plan_cases(chk):
             for seq in itertools.product(sv3, repeat=3 if (thorough or shape == SMALL) else 2):
                 if seq[0][0] != 'L':
                     plan.append((cfgname, shape, [None, None], ['L00T'] + list(seq), 'exhaustive'))
+    # a NEW image object of the same class around np.asanyarray(dataobj) (a), get_fdata() (f) or np.asarray(dataobj)
+    # (v: a base-class view of the map), then saves onto the mapped file / elsewhere, reads, dtype changes
+    alpha3 = ['A01a', 'A01f', 'A01v', 'S10', 'S11', 'F1', 'D1', 'S00', 'F0', 'U0']
+    for cfgname, shapes in (('nii', (SMALL, BIG)), ('pair', (SMALL,)), ('mgh', (SMALL, BIG)), ('spm', (SMALL,)),
+                            ('nii-links', (SMALL,))):
+        for shape in shapes if not thorough else (SMALL, BIG):
+            for seq in itertools.product(alpha3, repeat=3):
+                # beyond a page (and for .img files, truncated to nothing, always) every save of the view onto the mapped
+                # file kills a child: the view is enumerated on small single-file data (zeros written instead), and by three explicit histories per class on the big data
+                if seq[0][0] == 'A' and not ((shape == BIG or cfgname in ('pair', 'spm')) and not thorough and 'A01v' in seq):
+                    plan.append((cfgname, shape, [None, None], ['L00T'] + list(seq), 'exhaustive'))
+    for cfgname in ('nii', 'pair', 'mgh', 'spm', 'nii-links'):
+        for ops in (['L00T', 'A01v', 'S10'], ['L00T', 'A01v', 'F1', 'T10'], ['L00T', 'A01v', 'S11', 'F1', 'S10']):
+            plan.append((cfgname, BIG, [None, None], ops, 'exhaustive'))
+    for cfgname in ('nii', 'pair', 'mgh', 'spm', 'cross', 'nii-mixed'):
+        for shape in (SMALL, BIG):
+            for ops in (['L00F', 'A01a', 'S10', 'F1', 'F0'], ['L00R', 'A01a', 'S10', 'F1'], ['L00T', 'A01a', 'A10a', 'S00', 'F0'],
+                        ['L00T', 'F0', 'A01f', 'D0', 'S00', 'F1'], ['L00T', 'A01a', 'S12', 'L02T', 'F0', 'F1'],
+                        ['L01T', 'A01a', 'T11', 'S10', 'F1', 'B1']):
+                plan.append((cfgname, shape, [None, None], ops, 'exhaustive'))
     # vector-like volumes (one non-unit axis, beyond a page): own-file saves and everything else of depth 2
     for cfgname in ('nii', 'pair', 'mgh'):
         for shape in VECS:
@@ -575,7 +600,7 @@ def run(chk: Check):
                          scales=scale_table(shape, shift)[1]))
     # interleave so that every child gets a mix (crashing histories are spread over the batches)
     nproc = int(os.environ.get('VERIF_C09_PROCS', '10' if chk.tier == 'quick' else '12'))
-    impl, stats = run_children(jobs, chk.workdir, nproc, crash_cap=60 if chk.tier == 'quick' else 1500)
+    impl, stats = run_children(jobs, chk.workdir, nproc, crash_cap=200 if chk.tier == 'quick' else 3000)
     chk.extra['child_processes'] = stats
     chk.extra['timing_s'] = {'build_incl_lock_wait': round(t1 - t0, 1), 'probes': round(t2 - t1, 1),
                              'children': round(time.time() - t2, 1)}
@@ -616,14 +641,25 @@ def run(chk: Check):
         if r['status'] == 'crashed':
             kc, sig = r['crash']
             info = r['info'].get(kc, '')
-            if itoks[kc] == 'crash' and ops[kc][0] == 'F' and 'rewritten=other' in info:
+            if itoks[kc] == 'crash' and 'rewritten=other' in info and (ops[kc][0] == 'F' or 'alias=array' in info):
                 n_crash_known += 1
                 chk.known('S-C09b', S_C09B)
-                chk.tagc('known:S-C09b:' + info.split('rewritten=')[1])
+                chk.tagc('known:S-C09b:' + ('array' if 'alias=array' in info else 'cache'))
+            elif itoks[kc] == 'crash' and ops[kc][0] in 'STW' and 'viewmap=1' in info:
+                n_crash_known += 1
+                chk.known('S-C09d', S_C09D)
+                chk.tagc('known:S-C09d:crash')
             else:
                 fails.append(f'the interpreter died at step {kc} ({ops[kc]}): {sig}')
         for kp, what, sig in r['pred']:     # (S-C09c, once classified here by its signature, is fixed: 29b7b6ce)
-            fails.append(f'step {kp} ({ops[kp]}): {what}' + (f' [{sig}]' if sig != '-' else ''))
+            if 'viewmap=1' in r['info'].get(kp, '') and (what.startswith('file_differs') or what.startswith('unusable')):
+                chk.known('S-C09d', S_C09D)
+                chk.tagc('known:S-C09d:' + what.split(':')[0])
+            elif sig == 'array_map':
+                chk.known('S-C09b', S_C09B)
+                chk.tagc('known:S-C09b:array_is_map_of_rewritten_file')
+            else:
+                fails.append(f'step {kp} ({ops[kp]}): {what}' + (f' [{sig}]' if sig != '-' else ''))
         bad_other = [t for t in itoks if t.startswith('ref:other') or t.startswith('died:')]
         if fails and tag not in UNMODELLED:
             pv.append((case, itoks, mtoks, '; '.join(fails)))
@@ -636,6 +672,19 @@ def run(chk: Check):
                 cv.append((case, itoks, ['<not modelled: expected ' + ' and '.join(want) + ' and no unexpected error>']))
             continue
         agree = len(mtoks) == len(itoks) and all(tok_match(m, i) for m, i in zip(mtoks, itoks))
+        if not agree:
+            # inside the S-C09d defect (an unrecognised view of a map of the target is saved) the outcome is a crash or
+            # garbage in the file: the model decides between them by the page arithmetic of a whole-array read, the
+            # writer's slab order can turn one into the other - either way the finding is reported; the rest of such a
+            # history is not compared (one side is dead)
+            def bad_save(t):
+                return t == 'crash' or (t.startswith('saved:') and t.split(':')[2] == 'G')
+            for kk, (m_, i_) in enumerate(zip(mtoks, itoks)):
+                if not tok_match(m_, i_):
+                    if 'viewmap=1' in r['info'].get(kk, '') and bad_save(m_) and bad_save(i_):
+                        agree = True
+                        chk.tagc('s_c09d_crash_vs_garbage_not_compared')
+                    break
         if not agree:
             chk.disagreements += 1
             if not fails:
@@ -663,6 +712,9 @@ def run(chk: Check):
         'map of a file that ANOTHER image object later shortens); proved instead: C09_save_never_crashes (all '
         'histories), C09_no_crash (every history on which the computed predicate `affected` is false), '
         'C09_affected_is_real (tightness), C09_no_crash_partial (static sufficient condition)',
+        'C09_save_never_crashes / C09_files_decode carry the side conditions backed (no unbacked live map: else S-C09b) '
+        'and not risky (the saver is not an unrecognised view of a map of the target: else S-C09d, '
+        'C09_view_of_map_refuted); C09_usable excludes a saver whose own array maps the target (S-C09b)',
         'C09_files_decode: the file holds written(g, fmt, dtype, v): it decodes to v except when MGH (no scaling) clips '
         'data of both signs to uint8 (lemma written_val); integer quantisation itself is C02\'s subject; C09_usable '
         'carries the same exclusion and the side conditions names_wf / classes_ok (invariant of every run)']
@@ -716,6 +768,8 @@ def coq_case(cfgname, shape, imgs, ops, mtoks, shift=0):
             return f'ToFilename {t[1]}%nat {t[2]}%nat'
         if k == 'C':
             return f'Clone {t[1]}%nat {t[2]}%nat'
+        if k == 'A':
+            return f"Wrap {t[1]}%nat {t[2]}%nat {dict(a='WAny', f='WFdata', v='WView')[t[3]]}"
         return {'F': 'Fdata', 'U': 'Uncache', 'E': 'EditHdr', 'D': 'SetDtype', 'B': 'ToBytes', 'X': 'SaveFull',
                 'I': 'SetInt', 'M': 'EditMap'}[k] + f' {t[1]}%nat'
 
